@@ -110,3 +110,16 @@ M("c07.mercury-drop-R0-term", "C07", "pymeeus/Mercury.py", "[7834131.817, 6.1923
 M("c07.mercury-L-term-phase", "C07", "pymeeus/Mercury.py", "[7834131.817, 6.19233722599, 26087.90314157420],", "[7834131.817, 6.91233722599, 26087.90314157420],")
 M("c07.element-e", "C07", V, "[0.00677192, -0.000047765, 0.0000000981, 0.00000000046],", "[0.01677192, -0.000047765, 0.0000000981, 0.00000000046],")
 M("c07.to_positive-dropped", "C07", C, "    lon = Angle(lon, radians=True)\n    lon = lon.to_positive()\n    sum_list = []", "    lon = Angle(lon, radians=True)\n    sum_list = []")
+# ---- C08
+S = "pymeeus/Sun.py"
+M("c08.lat-sign", "C08", S, "        lon = lon.to_positive() + 180.0\n        lat = -lat\n        return lon, lat, r", "        lon = lon.to_positive() + 180.0\n        return lon, lat, r")
+M("c08.+18", "C08", S, "lon, lat, r = Earth.apparent_heliocentric_position(epoch, nutation)\n        lon = lon.to_positive() + 180.0", "lon, lat, r = Earth.apparent_heliocentric_position(epoch, nutation)\n        lon = lon.to_positive() + 18.0")
+M("c08.j2000-rot", "C08", S, "y0 = -0.000000479966 * x + 0.917482137087 * y - 0.397776982902 * z", "y0 = -0.000000479966 * x + 0.917482137087 * y - 0.39777 * z", note="multiplies the ecliptic z of the Sun (~1e-6 AU): no observable effect; equivalent")
+M("c08.j2000-rot-big", "C08", S, "y0 = -0.000000479966 * x + 0.917482137087 * y - 0.397776982902 * z", "y0 = -0.000000479966 * x + 0.9174 * y - 0.397776982902 * z")
+M("c08.equinox-transposed", "C08", S, "xp = xx * x0 + yx * y0 + zx * z0", "xp = xx * x0 + xy * y0 + xz * z0")
+M("c08.obliquity-27", "C08", C, "epsilon0 = Angle(23, 26, 21.448)", "epsilon0 = Angle(23, 27, 21.448)")
+M("c08.obliquity-4680", "C08", C, "        -4680.93\n", "        -4608.93\n")
+M("c08.nutation-13187", "C08", C, "[-13187.0, -1.6],", "[-31187.0, -1.6],")
+M("c08.coarse-0.00569", "C08", S, "lambd = true_lon - 0.00569 - 0.00478 * sin(omega.rad())", "lambd = true_lon - 0.0569 - 0.00478 * sin(omega.rad())")
+M("c08.b1950-matrix", "C08", S, "x = 0.999925702634 * x + 0.012189716217 * y + 0.000011134016 * z", "x = 0.999925702634 * x + 0.012819716217 * y + 0.000011134016 * z")
+M("c08.mean-equinox-y", "C08", S, "y = r * (sin(ll) * cos(e) - sin(b) * sin(e))", "y = r * (sin(ll) * cos(e) + sin(b) * sin(e))", note="b ~ 1e-6 rad: 4e-7 AU effect vs 1e-9 AU tolerance")
